@@ -10,13 +10,16 @@
         to non-zero singular values are orthonormal,  every singular value is exactly 0 or
         `> tol · max W` (rank numerically unambiguous).
 
-  That `SVD::svd()` (Householder bidiagonalisation + implicit-shift QR sweeps, transliterated in
-  `Model/Ls/Svd/Decomp.lean` for execution) returns such factors is NOT proved: convergence and
-  accuracy of the Golub–Reinsch iteration are outside this development.  The certificate is
-  checked NUMERICALLY on the factors of the real code on every run (harness/svd_cert.cpp,
-  tools/props/svd_cert.py: ‖A − U W Vᵀ‖, ‖VᵀV − I‖, ‖U₁ᵀU₁ − I‖ ≤ 1e-10·‖A‖, singular values
-  separated from the threshold).  This is the one place in C01/C03/C20 where a per-run numeric
-  check stands in for a missing universal theorem.
+  The algebraic part of the certificate is PROVED for the factors `SVD::svd()` returns
+  (Householder bidiagonalisation + implicit-shift QR sweeps, transliterated in
+  `Model/Ls/Svd/Decomp.lean`): `Props/C01/SvdDecomp.lean` (`C01_svd_decompose_cert`,
+  `C01_svd_decompose_svdcert`) and the certificate-free restatements `C01_svd_decompose`,
+  `C01_svd_solve_decompose`, `C01_adj_svd_decompose`, `C01_net_svd_decompose` there — the theorems
+  of THIS file are the intermediate step (factors as a parameter).  What remains a hypothesis is
+  `Unambiguous tol W` (a property of the returned singular values) and that the run returns
+  (convergence of the QR iteration: not proved); rounding is outside: for `double` the factors of
+  the real code are checked NUMERICALLY on every run (harness/svd_cert.cpp, tools/props/svd_cert.py:
+  ‖A − U W Vᵀ‖, ‖VᵀV − I‖, ‖U₁ᵀU₁ − I‖ ≤ 1e-10·‖A‖, singular values separated from the threshold).
 
   Setting: `K` a linearly ordered field, the model instantiated at the field's own operations
   (`LS.fieldScalar sq`), `SqrtLaw sq` (`0 ≤ x → sq x · sq x = x ∧ 0 ≤ sq x`), `0 ≤ tol`,
